@@ -434,9 +434,162 @@ func (k *checker) tcbTimeCombos(v *vector, mk func(kind string) tcbCase) {
 			}
 		}
 	}
+	// Pairs of any document types under either TEE type: acceptable platform values of the TCB info,
+	// both documents inside their (maximal) validity; must be rejected unless both ids fit the TEE type.
+	for _, tn := range sortedKeys(k.c.tcbInfo) {
+		var rti refTCBInfo
+		if json.Unmarshal(k.c.tcbInfo[tn].Body, &rti) != nil {
+			continue
+		}
+		var lvl *refTCBLevel
+		for i := range rti.Levels {
+			if rti.Levels[i].Status == "UpToDate" || rti.Levels[i].Status == "SWHardeningNeeded" {
+				lvl = &rti.Levels[i]
+				break
+			}
+		}
+		if lvl == nil {
+			continue
+		}
+		for _, qn := range sortedKeys(k.c.qeID) {
+			var rqe refQEIdentity
+			if json.Unmarshal(k.c.qeID[qn].Body, &rqe) != nil {
+				continue
+			}
+			tIssue, _ := time.Parse(pcs.TimestampFormat, rti.IssueDate)
+			qIssue, _ := time.Parse(pcs.TimestampFormat, rqe.IssueDate)
+			later := tIssue
+			if qIssue.After(later) {
+				later = qIssue
+			}
+			for _, tee := range []uint32{0, 0x81} {
+				for _, withTDX := range []bool{false, true} {
+					tc := mk(fmt.Sprintf("doc-types/tee=%#x,tdxsvn=%v,tcbinfo=%s(%s),qeid=%s(%s)", tee, withTDX, tn, rti.ID, qn, rqe.ID))
+					tc.TeeType = tee
+					tc.TCBInfoSrc, tc.QEIDSrc = tn, qn
+					tc.FMSPC = rti.FMSPC
+					tc.TDXSvn = nil
+					if withTDX {
+						tc.TDXSvn = &[16]byte{}
+					}
+					for j := 0; j < 16; j++ {
+						tc.Comp[j] = lvl.TCB.SGX[j].SVN
+						if tc.TDXSvn != nil {
+							tc.TDXSvn[j] = byte(lvl.TCB.TDX[j].SVN)
+						}
+					}
+					tc.PCESVN = lvl.TCB.PCESVN
+					pol := *tc.Policy
+					pol.TCBValidityPeriod = 65535
+					pol.MinTCBEvaluationDataNumber = 0
+					tc.Policy = &pol
+					tc.TSSec = later.Unix() + 3600
+					cases = append(cases, tc)
+				}
+			}
+		}
+	}
 	evid.Parallel(len(cases), 0, func(i int) {
 		tc := cases[i]
 		tc.Index = i
 		k.evalTCBCase(&tc)
 	})
+}
+
+// pckCase is a direct call of the exported QuoteSignatureECDSA_P256.VerifyPCK (the PCK chain
+// verification step of Quote.Verify) at a given time. With the repository's vectors the PCK
+// certificates' validity boundaries are always masked by the collateral's (the leaf's NotBefore is
+// earlier than the collateral issue dates, its NotAfter later than the TCB signing certificate's), so
+// only this entry point shows whether the PCK chain's validity is checked against ts.
+type pckCase struct {
+	Vector string `json:"vector"`
+	Kind   string `json:"kind"`
+	TSSec  int64  `json:"ts_sec"`
+	TSNsec int64  `json:"ts_nsec"`
+}
+
+func (k *checker) evalPCKCase(pc *pckCase) {
+	r := k.r
+	v := k.c.vectors[pc.Vector]
+	r.Eval(1)
+	r.Count("cases/pck-time", 1)
+	ts := time.Unix(pc.TSSec, pc.TSNsec)
+	var (
+		info     *pcs.PCKInfo
+		err      error
+		panicked string
+	)
+	func() {
+		defer func() {
+			if p := recover(); p != nil {
+				panicked = fmt.Sprint(p)
+			}
+		}()
+		var q pcs.Quote
+		if err = q.UnmarshalBinary(v.Quote); err != nil {
+			return
+		}
+		sig, ok := q.Signature().(*pcs.QuoteSignatureECDSA_P256)
+		if !ok {
+			err = fmt.Errorf("not an ECDSA quote signature")
+			return
+		}
+		info, err = sig.VerifyPCK(ts)
+	}()
+	if panicked != "" {
+		r.Violation("panic/pcs.VerifyPCK/"+pc.Vector, "VerifyPCK panicked: "+panicked, map[string]any{"pck_case": pc})
+		return
+	}
+	r.Nontrivial("pck-time|" + pc.Vector + "|" + pc.Kind)
+	if err != nil {
+		r.Count("pck_time_rejected", 1)
+		r.Distinct("pck_time_cases", pc.Vector+"|"+pc.Kind+"|rejected")
+		return
+	}
+	r.Count("pck_time_accepted", 1)
+	r.Distinct("pck_time_cases", pc.Vector+"|"+pc.Kind+"|accepted")
+	p := partsOf(v.Quote)
+	chain, _ := parsePEMCerts(p.cert)
+	for i, c := range chain {
+		if f := inWindow(ts, c, []string{"pck-leaf-cert", "pck-intermediate-cert", "pck-root-cert"}[i%3]); f != nil {
+			r.Violation(fmt.Sprintf("c18/%s/pck/expired-collateral-accepted/%s", pc.Vector, sanitize(f.Detail)),
+				fmt.Sprintf("VerifyPCK accepted the PCK chain of vector %s at ts=%d.%09d outside a certificate's validity: %s", pc.Vector, pc.TSSec, pc.TSNsec, f),
+				map[string]any{"pck_case": pc, "reference_failure": f.String(), "seed": r.Seed, "tier": r.Tier})
+			return
+		}
+	}
+	if ref, f := parsePCK(chain[0]); f == nil && info != nil {
+		if hex.EncodeToString(ref.FMSPC) != hex.EncodeToString(info.FMSPC) || ref.Comp != info.TCBCompSVN || ref.PCESVN != int32(info.PCESVN) {
+			r.Violation(fmt.Sprintf("c18/%s/pck/extracted-platform-values-differ", pc.Vector),
+				"VerifyPCK returned FMSPC / TCB component SVNs / PCESVN that differ from the PCK certificate's SGX extension as parsed by the reference",
+				map[string]any{"pck_case": pc, "returned_fmspc": hex.EncodeToString(info.FMSPC), "reference_fmspc": hex.EncodeToString(ref.FMSPC),
+					"returned_comp": info.TCBCompSVN, "reference_comp": ref.Comp, "returned_pcesvn": info.PCESVN, "reference_pcesvn": ref.PCESVN})
+		}
+	}
+}
+
+func (k *checker) pckTime(v *vector) {
+	p := partsOf(v.Quote)
+	if p == nil {
+		return
+	}
+	chain, _ := parsePEMCerts(p.cert)
+	var cases []pckCase
+	for i, c := range chain {
+		n := []string{"pck-leaf-cert", "pck-intermediate-cert", "pck-root-cert"}[i%3]
+		for _, b := range []boundary{{n + "-notbefore", c.NotBefore}, {n + "-notafter", c.NotAfter}} {
+			for _, d := range []time.Duration{-time.Second, -1, 0, 1, time.Second} {
+				ts := b.At.Add(d)
+				cases = append(cases, pckCase{Vector: v.Name, Kind: fmt.Sprintf("%s%+dns", b.Name, int64(d)), TSSec: ts.Unix(), TSNsec: int64(ts.Nanosecond())})
+			}
+		}
+	}
+	cases = append(cases, pckCase{Vector: v.Name, Kind: "vector-time", TSSec: v.TS.Unix()})
+	// The zero time.Time is not used here: crypto/x509 documents it as "use the current time", so the
+	// outcome would depend on the wall clock (in Quote.Verify a zero ts is rejected by the collateral's
+	// issue date check; that is covered by the "extreme" cases of the time grid).
+	for i, ts := range []time.Time{time.Unix(0, 0), time.Unix(1, 0), time.Unix(1<<40, 0)} {
+		cases = append(cases, pckCase{Vector: v.Name, Kind: fmt.Sprintf("extreme-%d", i), TSSec: ts.Unix(), TSNsec: int64(ts.Nanosecond())})
+	}
+	evid.Parallel(len(cases), 0, func(i int) { pc := cases[i]; k.evalPCKCase(&pc) })
 }
